@@ -13,6 +13,7 @@ import (
 	"time"
 
 	"verifharness/internal/isolate"
+	"verifharness/geometry"
 	"verifharness/metadata"
 	"verifharness/piecestore"
 	"verifharness/wire"
@@ -20,6 +21,7 @@ import (
 
 var bindings = map[string]func(in []byte) any{
 	"piecestore": piecestore.Replay,
+	"geometry":   geometry.Handle,
 	"metadata":   metadata.Replay,
 	"wire":       wire.Handle,
 }
